@@ -123,6 +123,7 @@ type vWorld struct {
 	sweepQ map[uint8]*vSweepQueues
 	dir    string
 	t0     time.Time // start of the history (real-time engine)
+	dead   bool      // the real code panicked during this history
 }
 
 // ms since the start of the history (0 on the virtual clock)
